@@ -19,7 +19,7 @@ META = dict(
                 "fields free of whitespace, delimiters non-empty runs of whitespace / ',' / tab, label with arbitrary interior) through a symbolic "
                 "model of the `re` calls it makes; z3 must show the returned columns are exactly the written fields as strings, that a first field "
                 "starting with the comment marker makes the line vanish, that a wrong column count or an unparsable number raises ValueError and "
-                "that two lines keep file order.  (a') load_patterns on files whose header structure is concrete and whose note tokens are symbolic: the nesting and values returned equal the file.  (b) post-parse contract: load_events/intervals/labeled_*/valued_intervals/time_series/key/tempo on "
+                "that two lines keep file order; the same for load_ragged_time_series (time stamp + 0-2 values per row).  (a') load_patterns on files whose header structure is concrete and whose note tokens are symbolic: the nesting and values returned equal the file.  (b) post-parse contract: load_events/intervals/labeled_*/valued_intervals/time_series/key/tempo on "
                 "arbitrary parsed columns return the values in file order and only warn on convention violations, except tempo weight outside "
                 "[0,1] and multi-line key/tempo files (ValueError).",
     bounds="pieces of length <=2 (quick) / <=3 (thorough), label <=3 / 5 characters, code points 9..126; 1-2 lines; parsed columns of 0-2 (3) rows",
@@ -28,7 +28,7 @@ META = dict(
            "float() on a symbolic token: injective uninterpreted token FLOAT(s) for tokens in the float-literal language over [0-9.eE+-], ValueError otherwise",
            "(b): io.load_delimited replaced by a stub returning arbitrary symbolic columns"],
     assumptions=["not applicable and not claimed: bit-identical float round trip (CPython's float()/repr), reading from a path vs. an open file, the row "
-                 "number quoted in messages, labels outside the symbolic alphabet, load_ragged_time_series, load_wav"],
+                 "number quoted in messages, labels outside the symbolic alphabet, load_wav"],
 )
 
 WS = ST.WHITESPACE
@@ -338,6 +338,89 @@ def job_two_lines():
     return Job('C20', 'two-lines[file order]', build, body, extra_patches=PATCH, funcs=['io.load_delimited'], lattice=0, exc_policy='body')
 
 
+class NpIO:
+    """stands in for `np` inside mir_eval.io while symbolic tokens are read: np.array(list of tokens, dtype=float) converts
+    every token with the float() model (ValueError for a token outside the float-literal language)"""
+
+    def __getattr__(self, n):
+        return getattr(np, n)
+
+    @staticmethod
+    def array(x, dtype=None, **k):
+        if isinstance(x, (list, tuple)) and any(isinstance(v, (ST.SymStr, FloatTok)) or ST.has_marker(v) for v in x):
+            out = np.empty(len(x), dtype=object)
+            for i, v in enumerate(x):
+                out[i] = v if isinstance(v, FloatTok) or dtype is None else (tok_float(v) if dtype is float else v)
+            return out
+        return np.array(x, dtype=dtype, **k)
+
+
+PATCH_RAGGED = {'io': dict(PATCH['io'], np=NpIO())}
+
+
+def job_ragged(shape, delimiter=None, nvals=2):
+    """load_ragged_time_series on one line  lead+t(+d1+v1(+d2+v2))+trail+'\\n'  assembled from symbolic pieces"""
+    custom = delimiter is not None
+
+    def build(ctx):
+        ln = dict(zip('lead t d1 v1 d2 v2 trail'.split(), shape))
+        d = {}
+        d['lead'] = piece(ctx, 'lead', ln['lead'], 'ws')
+        d['t'] = piece(ctx, 't', ln['t'], 'num', delimiter)
+        d['trail'] = piece(ctx, 'trail', ln['trail'], 'ws')
+        d['vals'] = []
+        d['delims'] = []
+        for k in range(nvals):
+            d['vals'].append(piece(ctx, 'v%d' % (k + 1), ln['v%d' % (k + 1)], 'num', delimiter))
+            d['delims'].append(delimiter if custom else piece(ctx, 'd%d' % (k + 1), ln['d%d' % (k + 1)], 'ws'))
+        return d
+
+    def body(A, inp):
+        line = inp['lead'] + inp['t']
+        for dl, v in zip(inp['delims'], inp['vals']):
+            line = line + dl + v
+        line = line + inp['trail'] + "\n"
+        kw = dict(delimiter=delimiter) if custom else {}
+        st, res = A.call(IO.load_ragged_time_series, as_file(A, [line]), **kw)
+        A.observe('status', st if st == 'ok' else type(res).__name__)
+        A.require(st == 'ok' or isinstance(res, ValueError), 'load_ragged_time_series:only-ValueError', got=type(res).__name__)
+        first = inp['lead'] + inp['t']
+        if bool(first[0] == '#'):
+            A.require(st == 'ok' and len(res[0]) == 0 and len(res[1]) == 0, 'load_ragged_time_series:comment-line-vanishes')
+            return
+
+        def valid(tok):
+            if A.sym:
+                return bool(S.SymBool(z3.InRe(tok.e, float_rx())))
+            try:
+                float(tok)
+                return True
+            except ValueError:
+                return False
+        oks = [valid(inp['t'])] + [valid(v) for v in inp['vals']]
+        if not all(oks):
+            A.require(st == 'exc', 'load_ragged_time_series:unparsable-number=>ValueError')
+            return
+        A.require(st == 'ok', 'load_ragged_time_series:well-formed-line-is-read')
+        if st != 'ok':
+            return
+        times, values = res
+        A.require(len(times) == 1 and len(values) == 1 and len(values[0]) == nvals, 'load_ragged_time_series:one-row-with-all-its-values',
+                  got=(len(times), [len(v) for v in values]))
+        if not (len(times) == 1 and len(values) == 1 and len(values[0]) == nvals):
+            return
+        if A.sym:
+            same = _same_str(A, times[0].s, inp['t'])
+            for g, w in zip(values[0], inp['vals']):
+                same = A.And(same, _same_str(A, g.s, w))
+        else:
+            same = times[0] == float(inp['t']) and all(g == float(w) for g, w in zip(values[0], inp['vals']))
+        A.require(same, 'load_ragged_time_series:time-and-values-are-the-written-tokens-in-order')
+    nm = 'ragged[%s,delimiter=%r,%d values]' % (','.join(map(str, shape)), delimiter if custom else '\\s+', nvals)
+    return Job('C20', nm, build, body, extra_patches=PATCH_RAGGED, funcs=['io.load_ragged_time_series', 'io._open'], lattice=0, bounds=dict(pieces=shape),
+               exc_policy='body', timeout_s=2400, max_decisions=100000)
+
+
 # ---------------------------------------------------------------- (b) post-parse contract
 
 def job_postparse(loader, ncols, rows):
@@ -524,6 +607,13 @@ def jobs(tier):
     if not q:
         js.append(job_tokens((1, 3, 1, 2, 1, 2, 1), None, True))
         js.append(job_tokens((0, 2, 1, 2, 1, 4, 1), ',', False))
+    js.append(job_ragged((0, 1, 1, 1, 1, 1, 0)))
+    js.append(job_ragged((1, 2, 1, 1, 1, 2, 1)))
+    js.append(job_ragged((0, 2, 0, 0, 0, 0, 1), nvals=0))
+    js.append(job_ragged((0, 1, 1, 2, 1, 1, 0), ','))
+    if not q:
+        js.append(job_ragged((1, 2, 2, 2, 1, 2, 1)))
+        js.append(job_ragged((0, 2, 1, 2, 1, 1, 1), '\t'))
     for k in (1, 2, 3):
         js.append(job_column_count(k))
     js.append(job_two_lines())
